@@ -102,7 +102,9 @@ class Concretizer:
         rid = _py(self.ev(v.t))
         tid = _py(self.ev(TYP(v.t)))
         cls = self.ids.get(tid, v.ty.cls)
-        if cls not in self.ex.known_subclasses(v.ty.cls) or (dsl.REG.classes.get(cls) and dsl.REG.classes[cls].sealed):
+        sd = dsl.REG.classes.get(v.ty.cls)
+        if cls not in self.ex.known_subclasses(v.ty.cls) or (dsl.REG.classes.get(cls) and dsl.REG.classes[cls].sealed) \
+                or (sd is not None and sd.abstract):
             cls = v.ty.cls        # typ of this ref is unconstrained in the VC: use the declared class
         out = {"__ref__": rid, "__class__": cls}
         if depth > 4:
@@ -111,6 +113,8 @@ class Concretizer:
             d = dsl.REG.classes.get(n)
             if not d:
                 continue
+            if d.abstract and not (sd is not None and sd.abstract):
+                continue      # ghost view fields of the interface are meaningless on a concrete object
             for f, fty in d.fields.items():
                 key = (n, f)
                 if key in self.heap0:
